@@ -377,6 +377,25 @@ def gen_typed_grammar(rng, case_index, slice_):
                 params = (spec.spec_of(head),)
         meta.update(rmeta)
         rules.append(L.Rule(n, b, params=params))
+    # rules WITH parameters that name no type (`r[1]`, `r[7, Foo]`, `r[k=1]`): the builder must leave
+    # the plain AST at that place; only rules that were untyped anyway are converted, so the typed
+    # shapes of the slice stay as generated
+    if rng.random() < 0.5:
+        untyped = [r for r in rules if not r.params]
+        if not untyped and slice_ == 'fresh':   # no untyped rule: take the annotation off one
+            cands = [r for r in rules[1:] if r.params and r.params[0] not in BUILTINS]
+            if cands:
+                untyped = [rng.choice(cands)]
+                untyped[0].params = ()
+        for r in untyped[:2]:
+            kind = rng.choice(['number-first', 'number-then-word', 'keywords-only'])
+            if kind == 'number-first':
+                r.params = (rng.choice([1, 7, 42]),)
+            elif kind == 'number-then-word':
+                r.params = (rng.choice([1, 7, 42]), 'Foo' + sfx)
+            else:
+                r.kwparams = (('k', rng.choice([1, 2])),)
+            meta.setdefault('nontype', []).append([r.name, kind])
     g = L.Grammar(rules)
     meta['chains'] = {k: list(v) for k, v in spec.chain.items()}
     meta['styles'] = [rng.choice(['::', '::', '[]']) for _ in rules]
@@ -396,6 +415,11 @@ def builtin_body(rng, bt):
                        L.PClo(L.Tok('b'))])
 
 
+def rule_spec(r):
+    """the type annotation of a rule: its first parameter when that is a string, else None"""
+    return r.params[0] if r.params and isinstance(r.params[0], str) else None
+
+
 def typed_text(g: L.Grammar, styles=None, name=None) -> str:
     """grammar text with `rule::A::B = e ;` (or `rule[A::B] = e ;`) annotations"""
     out = []
@@ -403,8 +427,12 @@ def typed_text(g: L.Grammar, styles=None, name=None) -> str:
         out.append(f'@@grammar :: {name}')
     for i, r in enumerate(g.rules):
         st = (styles or [])[i] if styles and i < len(styles) else '::'
-        if r.params:
-            head = f'{r.name}::{r.params[0]}' if st == '::' else f'{r.name}[{r.params[0]}]'
+        sp = rule_spec(r)
+        if sp is not None:
+            head = f'{r.name}::{sp}' if st == '::' else f'{r.name}[{sp}]'
+        elif r.params or r.kwparams:   # parameters that name no type
+            ps = [L.param_text(x) for x in r.params] + [f'{k}={L.param_text(v)}' for k, v in r.kwparams]
+            head = f'{r.name}[{", ".join(ps)}]'
         else:
             head = r.name
         out.append(f'{head} = {L.txt(r.body)} ;')
@@ -430,6 +458,7 @@ class TagSemantics:
 
     def __init__(self, rule_names=()):
         self._rules = frozenset(rule_names)
+        self.hits = {}   # kind of type-less parameter list -> actions run (evidence only)
 
     def __getattr__(self, name):
         if name.startswith('_') or name not in self.__dict__.get('_rules', ()):
@@ -437,6 +466,12 @@ class TagSemantics:
 
         def action(ast, *args, **kwargs):
             if not args or not isinstance(args[0], str):
+                hits = self.__dict__['hits']
+                if args:
+                    k = 'number-first' if len(args) == 1 else 'number-then-word'
+                    hits[k] = hits.get(k, 0) + 1
+                elif set(kwargs) - {'parseinfo'}:
+                    hits['keywords-only'] = hits.get('keywords-only', 0) + 1
                 return ast
             return Tagged(args[0], ast, name)
         action.__name__ = 'vt_tag_' + name
@@ -515,11 +550,14 @@ class Judge:
     evidence about what was seen"""
 
     def __init__(self, route, stale_names=(), module=None, hostile=None, own_names=None, shared_heads=(),
-                 conflict_heads=()):
+                 conflict_heads=(), declared_specs=None):
         self.route = route            # 'synth' | 'module'
         self.own_names = own_names or {}   # rule name -> names of the elements the rule itself defines
         self.shared_heads = set(shared_heads)   # classes declared by more than one rule
         self.conflict_heads = set(conflict_heads)   # ... with different chains of bases (MRO not judged)
+        # rule name -> annotation in the grammar; given on the generated-parser route, where the
+        # parameter the action received is itself under test (the model passes it whole)
+        self.declared_specs = declared_specs
         self.stale = set(stale_names)  # class names declared with another chain earlier in this process
         self.module = module
         self.hostile = hostile
@@ -540,7 +578,15 @@ class Judge:
     def corr(self, mv, tv, path='$', depth=0, where=()):
         from tatsu.objectmodel import Node
         if isinstance(tv, Tagged):
-            names = tv.spec.split('::')
+            spec_ = tv.spec
+            if self.declared_specs is not None and tv.rule in self.declared_specs:
+                self.bump('params_compared_with_grammar')
+                if self.declared_specs[tv.rule] != spec_:
+                    self.bad('param-differs-from-grammar',
+                             f'{path}: the action of rule {tv.rule} received the parameter {spec_!r}, the grammar '
+                             f'(and the model route) say {self.declared_specs[tv.rule]!r}')
+                    spec_ = self.declared_specs[tv.rule]
+            names = spec_.split('::')
             if len(names) == 1 and names[0] in BUILTINS:
                 return self.builtin(mv, tv, names[0], path)
             self.maxdepth = max(self.maxdepth, depth + 1)
@@ -572,10 +618,10 @@ class Judge:
             elif not ok:
                 if self.route == 'synth' and any(n in self.stale for n in names):
                     self.bad('bases:stale-synth-registry',
-                             f'{path}: annotated {tv.spec}, class {names[0]} has MRO {mro[:len(names) + 2]}: a class '
+                             f'{path}: annotated {spec_}, class {names[0]} has MRO {mro[:len(names) + 2]}: a class '
                              f'of that name synthesized earlier in this process with other bases was reused')
                 else:
-                    self.bad('bases:mro-mismatch', f'{path}: annotated {tv.spec}, MRO is {mro[:len(names) + 3]}')
+                    self.bad('bases:mro-mismatch', f'{path}: annotated {spec_}, MRO is {mro[:len(names) + 3]}')
             else:
                 self.bump(f'chain_len:{len(names)}')
                 actual = []
